@@ -504,7 +504,7 @@ class C06(ReduceProp):
                     # one strict extreme late in the array, near-equal values before it
                     j = rng.randrange(len(c.vals) // 2, len(c.vals))
                     c.vals[j] = base + (5 if "max" in c.func else -5)
-            if c.dtype.startswith("float") and c.func in FIRSTLAST and rng.random() < 0.2:
+            if c.dtype.startswith("float") and c.func in FIRSTLAST and rng.random() < 0.35:
                 # datetime64 / timedelta64 data: NaT is their missing value and must be skipped / kept like NaN
                 c.dtype = rng.choice(["datetime64[ns]", "timedelta64[ns]", "datetime64[s]"])
                 c.vals = [v if (isinstance(v, float) and v != v) else float(rng.choice([10, 20, 20, 30])) for v in c.vals]
